@@ -868,7 +868,7 @@ pub fn generate(cfg: &Cfg) -> Vec<String> {
     for (ki, &(alpha, k, ty)) in kinds.iter().enumerate() {
         // boundary stream: the length grid x motif widths
         for (li, &l) in lengths(cfg.thorough).iter().enumerate() {
-            let reps = if cfg.thorough { 3 } else { 1 };
+            let reps = if cfg.thorough { 2 } else { 1 };
             for rep in 0..reps {
                 // widths: small ones often, up to 40; L < M, L = M, L = M + 1 near the short lengths
                 let m = match (li + rep + ki) % 6 {
@@ -880,15 +880,15 @@ pub fn generate(cfg: &Cfg) -> Vec<String> {
                     _ => rng.range(1, 8),
                 };
                 // keep the big sequences cheap for the model
-                let m = if l > 4000 { m.min(if cfg.thorough { 12 } else { 5 }) } else { m };
+                let m = if l > 4000 { m.min(if k > 8 { 3 } else { 6 }) } else { m };
                 if !cfg.thorough && l > 80 && (li + ki) % 3 != 0 {
                     continue;
                 }
-                cases.push(case_line(&mut rng, alpha, k, ty, m, l, l <= 80 || l > 4000));
+                cases.push(case_line(&mut rng, alpha, k, ty, m, l, l <= 80));
             }
         }
         // random stream
-        let count = (if cfg.thorough { 1500 } else { 110 }) * cfg.boost;
+        let count = (if cfg.thorough { 900 } else { 110 }) * cfg.boost;
         for n in 0..count {
             let l = if n % 40 == 39 {
                 rng.range(2000, if cfg.thorough { 70_000 } else { 9_000 })
@@ -897,7 +897,7 @@ pub fn generate(cfg: &Cfg) -> Vec<String> {
             } else {
                 rng.range(0, 400)
             };
-            let m = if l > 4000 { rng.range(1, 6) } else if rng.chance(1, 4) { rng.range(1, 40) } else { rng.range(1, 16) };
+            let m = if l > 4000 { rng.range(1, if k > 8 { 3 } else { 6 }) } else if rng.chance(1, 4) { rng.range(1, 40) } else { rng.range(1, 16) };
             cases.push(case_line(&mut rng, alpha, k, ty, m, l, false));
         }
         // out-of-contract stream
